@@ -271,6 +271,47 @@ theorem inv_step {s : TD} (hI : Inv s) (op : Op) : Inv (step s op) := by
     · exact hI
   | termUser u => exact inv_foldl_terminate _ hI
   | termAll => exact inv_foldl_terminate _ hI
+  | authFail n =>
+    simp only [step]
+    split
+    · rename_i o ho
+      by_cases ht : o.tornDown = true
+      · simp only [ht, if_true]; exact hI
+      · have ht' : o.tornDown = false := by simpa using ht
+        simp only [ht', Bool.false_eq_true, if_false]
+        refine ⟨?_, ?_, ?_, ?_, ?_⟩
+        · intro n' o' h hto
+          simp only [lookup_insert] at h
+          split at h
+          · rename_i e; subst e; exact hI.fresh _ o ho ht'
+          · exact hI.fresh n' o' h hto
+        · intro n' o' h hto
+          simp only [lookup_insert] at h
+          split at h
+          · simp only [Option.some.injEq] at h; subst h; simp [ht'] at hto
+          · exact hI.done n' o' h hto
+        · intro n' h
+          simp only [lookup_insert] at h
+          split at h
+          · simp at h
+          · exact hI.unused n' h
+        · intro id n' h
+          obtain ⟨o2, ho2, hid⟩ := hI.tbl id n' h
+          simp only [lookup_insert]
+          split
+          · rename_i e; subst e
+            rw [ho] at ho2; simp only [Option.some.injEq] at ho2; subst ho2
+            exact ⟨_, rfl, hid⟩
+          · exact ⟨o2, ho2, hid⟩
+        · intro n' hm
+          obtain ⟨o2, ho2, hip⟩ := hI.heldIp n' hm
+          simp only [lookup_insert]
+          split
+          · rename_i e; subst e
+            rw [ho] at ho2; simp only [Option.some.injEq] at ho2; subst ho2
+            exact ⟨_, rfl, hip⟩
+          · exact ⟨o2, ho2, hip⟩
+    · exact hI
 
 theorem inv_run {s : TD} (hI : Inv s) (ops : List Op) : Inv (run s ops) := by
   induction ops generalizing s with
@@ -351,6 +392,10 @@ theorem terminated_holds_nothing (radius : Bool) (ops : List Op) (n : Nat) (o : 
           · rfl
         | termUser u => exact hfo _ _
         | termAll => exact hfo _ _
+        | authFail n =>
+          simp only [step]; split
+          · rename_i o _; cases ht : o.tornDown <;> simp
+          · rfl
     exact this _ _
   obtain ⟨a, b, c, d⟩ := hI.done n o ho ht
   rw [hr] at b
